@@ -269,6 +269,15 @@ class MonitorPool(Module):
         else:
             raise KeyError(f"'name' ('{name}') is not a registered observable")
 
+    def _is_shared(self, monitor: Monitor, observed: str) -> bool:
+        r"""Tests if a monitor is also pooled under an observable other than the given one."""
+        return any(
+            m is monitor
+            for o, group in self.monitors_.items()
+            if o != observed
+            for m in group.values()
+        )
+
     def del_observed(self, name: str) -> None:
         r"""Deletes an added observable.
 
@@ -281,7 +290,8 @@ class MonitorPool(Module):
         """
         if name in self.monitors_:
             for monitor in self.monitors_[name].values():
-                monitor.deregister()
+                if not self._is_shared(monitor, name):
+                    monitor.deregister()
             del self.monitors_[name]
 
         if name in self.observed_:
@@ -382,8 +392,9 @@ class MonitorPool(Module):
                 f"observable with name '{observed}'"
             )
 
-        # delete the monitor
-        self.monitors_[observed][monitor].deregister()
+        # delete the monitor (a monitor pooled with another observable keeps recording)
+        if not self._is_shared(self.monitors_[observed][monitor], observed):
+            self.monitors_[observed][monitor].deregister()
         del self.monitors_[observed][monitor]
 
         # delete group if empty
